@@ -254,6 +254,9 @@ type foldMonoid[T any] struct {
 // failFold reports a fold failure, attributed to the monoid when the monoid itself is at fault.
 func failFold(x *mc.X, n *node, key, format string, args ...any) {
 	if n != nil {
+		if cu := n.histCulprit(); cu.histcheck() != "" {
+			x.Fail(cu.head+"/"+cu.histcheck(), "%s (attributed to the instance %s, which violates %q in the history family on its own)", fmt.Sprintf(format, args...), cu.name, cu.histcheck())
+		}
 		if cu := n.culprit(); cu.selfcheck() != "" {
 			x.Fail(cu.head+"/"+cu.selfcheck(), "%s (attributed to the instance %s, which violates %q on its own domain)", fmt.Sprintf(format, args...), cu.name, cu.selfcheck())
 		}
@@ -296,9 +299,10 @@ func foldCases[T any](kind string, fm foldMonoid[T], impls []foldImpl[T]) []fold
 			in := "[" + strings.Join(shown, " ") + "]"
 			// reference: the plain loop, on independent operands without spare capacity
 			ref := fm.alphabet()
-			want := m.Empty()
+			refM := fm.mk() // the reference fold uses an instance of its own
+			want := refM.Empty()
 			for _, i := range idx {
-				want = m.Combine(want, fm.tight(ref[i]))
+				want = refM.Combine(want, fm.tight(ref[i]))
 			}
 			wantS := fm.show(fm.tight(want))
 			var got, got2 T
